@@ -157,8 +157,8 @@ def plan(tier):
                 "ref_filter_length": 3000, "ref_filter_json": 3000, "ref_filter_repr": 3000, "ref_filter_rev": 3000,
                 "via_translate_name": 15000, "via_translate_mrna": 15000, "via_synthesize": 15000,
                 # Part B sweep
-                "partb_combos": 40000, "partb_baseline_ok": 40000, "partb_opaque_ok": 10000,
-                "partb_echo_before": 10000, "partb_echo_after": 10000, "partb_echo_opaque_ok": 10000,
+                "partb_combos": 30000, "partb_baseline_ok": 30000, "partb_opaque_ok": 10000,
+                "partb_echo_before": 8000, "partb_echo_after": 8000, "partb_echo_opaque_ok": 8000,
                 "opaque_ok_echo_before:simple": 1000, "opaque_ok_echo_after:simple": 1000,
                 "opaque_ok_echo_before:optional": 1000, "opaque_ok_echo_after:optional": 1000,
                 "opaque_ok_echo_before:loop-item": 500, "opaque_ok_echo_after:loop-item": 500,
